@@ -35,6 +35,12 @@ impl Corpus {
             files.push((format!("~synthetic-full-{i}.osu"), synthetic_full(m).into_bytes()));
         }
         files.push(("~synthetic-odd.osu".to_string(), synthetic_odd().into_bytes()));
+        // a small map whose text is full of characters that are awkward in UTF-16 (code units made of CR / LF / NUL
+        // bytes, surrogate pairs) and in UTF-8 (every lead-byte class), stored in the three BOM-marked encodings: the
+        // offset sweeps then meet every byte of such characters
+        for (n, e) in [("u8", Enc::Utf8Bom), ("le", Enc::Utf16Le), ("be", Enc::Utf16Be)] {
+            files.push((format!("~synthetic-tricky-{n}.osu"), encode_text(&synthetic_tricky(), e)));
+        }
         let small = (0..files.len()).filter(|&i| files[i].1.len() <= 8192).collect();
         let large = (0..files.len()).filter(|&i| files[i].1.len() > 8192).collect();
         Ok(Corpus { files, small, large })
@@ -394,7 +400,9 @@ fn fnum(rng: &mut Rng, lo: f64, hi: f64) -> String {
     }
 }
 
-const TEXTS: &[&str] = &["Renatus", "Re:Zero", "a // b", "上海紅茶館 ～ Chinese Tea", "ＴＶサイズ", "Ünïcödé", "emoji 😀 tail", "ਊ ਐ", "Ċ Ċ", " padded ", "x,y", "[General]", "osu file format v9", "\"quoted\"", "tab\there", "\u{feff}bom inside", "", "日本語\u{3000}全角"];
+const TEXTS: &[&str] = &["Renatus", "Re:Zero", "a // b", "上海紅茶館 ～ Chinese Tea", "ＴＶサイズ", "Ünïcödé", "emoji 😀 tail", "ਊ ਐ", "Ċ Ċ", " padded ", "x,y", "[General]", "osu file format v9", "\"quoted\"", "tab\there", "\u{feff}bom inside", "", "日本語\u{3000}全角",
+    // one character per UTF-8 lead-byte class (C2, DF, E0, E1-EC, ED, EE-EF, F0, F1-F3, F4) and the first / last scalar of each length
+    "\u{80}\u{7FF}", "\u{800}\u{FFF}", "\u{1000}\u{CFFF}", "\u{D000}\u{D7FF}", "\u{E000}\u{FFFD}", "\u{10000}\u{3FFFF}", "\u{40000}\u{FFFFF}", "\u{100000}\u{10FFFF}", "a\u{10FFFE}b\u{100000}c"];
 
 pub fn gen_path(rng: &mut Rng) -> String {
     let mut s = String::new();
@@ -673,6 +681,11 @@ pub fn synthetic_full(mode: i64) -> String {
     format!(
         "osu file format v14\n\n[General]\nAudioFilename: audio file.mp3\nAudioLeadIn: 500\nPreviewTime: 12345\nCountdown: 2\nSampleSet: Soft\nSampleVolume: 70\nStackLeniency: 0.4\nMode: {mode}\nLetterboxInBreaks: 1\nSpecialStyle: 1\nWidescreenStoryboard: 1\nEpilepsyWarning: 1\nSamplesMatchPlaybackRate: 1\nCountdownOffset: 2\n\n[Editor]\nBookmarks: 1000,2000,3000\nDistanceSpacing: 1.5\nBeatDivisor: 8\nGridSize: 16\nTimelineZoom: 2.5\n\n[Metadata]\nTitle:Synthetic: full // featured\nTitleUnicode:\u{5408}\u{6210}\nArtist:rosu-sim\nArtistUnicode:\u{30B7}\u{30DF}\nCreator:verif\nVersion:Everything\nSource:none\nTags:a b c\nBeatmapID:123456\nBeatmapSetID:654321\n\n[Difficulty]\nHPDrainRate:6.5\nCircleSize:4.2\nOverallDifficulty:8.3\nApproachRate:9.1\nSliderMultiplier:1.7\nSliderTickRate:2\n\n[Events]\n0,0,\"bg image.jpg\",0,0\nVideo,-120,\"intro.mp4\"\n2,5000,7000\n2,20000,23000\n\n[TimingPoints]\n0,400,4,2,1,70,1,0\n1000,-50,4,2,1,70,0,1\n2000,-133.33,4,3,2,40,0,0\n4000,300,3,1,0,100,1,8\n4000,-80,3,1,0,100,0,1\n9000,NaN,4,1,0,100,0,0\n\n[Colours]\nCombo1 : 255,0,0\nCombo2 : 0,255,0\nCombo3 : 0,0,255\nSliderBorder : 200,200,200\nSliderTrackOverride : 10,20,30\n\n[HitObjects]\n64,64,500,5,2,1:2:3:60:custom.wav\n128,128,1000,2,4,B|200:200|300:100|300:100|L|350:50,2,220.5,2|4|8,1:2|0:0|3:1,2:1:4:50:\n256,192,3000,12,8,4500,0:0:0:0:\n100,300,9000,6,0,P|150:350|200:300,1,110\n300,100,10000,2,0,C|320:120|340:90|360:140,3,150,0|2|0|2,0:0|1:1|2:2|3:3,0:0:0:0:\n400,50,12000,128,2,12800:1:0:0:0:\n50,50,14000,1,0\n"
     )
+}
+
+pub fn synthetic_tricky() -> String {
+    "osu file format v14\n\n[General]\nAudioFilename: \u{0A0A}\u{4E0A}.mp3\nMode: 0\n\n[Metadata]\nTitle:\u{0A05}\u{0A0A} \u{4E0A}\u{010A}\nTitleUnicode:\u{0D0A}\u{0A0D}\u{0D00}\nArtist:\u{1F600}\u{10FFFF}\u{100000}\nCreator:\u{7FF}\u{800}\u{D7FF}\u{E000}\nVersion:\u{0A00}x\u{000A}".replace('\u{000A}', "\n").to_string()
+        + "Tags:\u{0100}\u{0A00} \u{2028}\n\n[Events]\n0,0,\"\u{4E0A}\u{0A0A}.png\",0,0\n\n[TimingPoints]\n0,500,4,1,0,100,1,0\n1000,-50,4,2,0,60,0,1\n\n[HitObjects]\n64,64,500,5,2,1:2:3:60:\u{0A0A}.wav\n128,128,1000,2,4,B|200:200|300:100,2,220.5,2|4|8,1:2|0:0|3:1,2:1:4:50:\n"
 }
 
 /// A hand-written file made of legal oddities: the three rarely used sections, brackets and comment markers in the middle
